@@ -298,6 +298,69 @@ def o_c19(meta, ans, ctx):
     return None
 
 
+def o_c03(meta, ans, ctx):
+    k = meta.get('kind')
+    if k == 'case':
+        a = parse_case_answer(ans)
+        if a is None or a['S']['status'] != 'ok' or a['E']['status'] != 'ok':
+            return None   # C02's business
+        n = a['S']['count']
+        # every borrowed node points into the buffer (offsets are printed relative to it; '-' = outside)
+        for kind, off in borrows_of(a['E']['val']):
+            if off == '-':
+                if kind != 'ref': return 'in-buffer: a borrowed %s does not point into the input buffer' % kind
+                continue
+            if int(off) > n: return 'in-bounds: a borrowed node starts at %s, the stream has %d bytes' % (off, n)
+        # the model gives the offsets at which the writer put each block: compared line by line already
+        return None
+    if k == 'alloc':
+        p = ans.split(' ')
+        if len(p) < 5 or p[0] != 'alloc': return 'shape: ' + ans[:60]
+        if p[4] != 'E' or p[5] != 'ok': return None
+        g = meta.get('group')
+        if g is None: return None
+        seen = ctx.setdefault('c03_groups', {})
+        if g not in seen:
+            seen[g] = (p[1], p[2], meta['factor'])
+            return None
+        c0, b0, f0 = seen[g]
+        if (p[1], p[2]) != (c0, b0):
+            return 'alloc-scaling: %s calls / %s bytes with borrowed payloads x%d, %s / %s with x%d' % (c0, b0, f0, p[1], p[2], meta['factor'])
+        return None
+    return None
+
+
+def o_c06(meta, ans, ctx):
+    k = meta.get('kind')
+    if k == 'corpus-missing':
+        return 'corpus-type: the corpus type %s is no longer in the universe' % meta.get('entry')
+    if k == 'case' and meta.get('family') == 'corpus-write':
+        a = parse_case_answer(ans)
+        if a is None or a['S']['status'] != 'ok': return 'corpus-write: serialization failed'
+        hx, st, mask = a['S']['hex'], meta['stored'], meta['mask']
+        if len(hx) != len(st): return 'corpus-write: %d bytes now, %d in the corpus' % (len(hx) // 2, len(st) // 2)
+        for j in range(0, len(hx), 2):
+            if mask[j // 2] == 'x' and hx[j:j + 2] != st[j:j + 2]:
+                return 'corpus-write: byte %d differs from the file written by the pinned build' % (j // 2)
+        return None
+    if k == 'fromhex':
+        p = ans.split(' | ')
+        if len(p) != 3: return 'shape: ' + ans[:60]
+        f, e = p[1].split(' '), p[2].split(' ')
+        if f[1] != 'ok' or f[2] != meta['val']: return 'corpus-read-full: a stored file no longer deserializes to the stored value (%s)' % ' '.join(f[1:3])[:60]
+        if e[1] != 'ok' or erase_borrows(e[2]) != meta['val']: return 'corpus-read-eps: a stored file no longer ε-copy deserializes to the stored value (%s)' % ' '.join(e[1:3])[:60]
+        if f[3] != str(meta['total']): return 'corpus-read-count: %s bytes consumed of %d' % (f[3], meta['total'])
+        return None
+    if k == 'hash' and 'th' in meta:
+        p = ans.split(' ')
+        if p[1] != meta['th']: return 'corpus-hash: the type hash changed'
+        if p[2] != meta['ah']: return 'corpus-hash: the alignment hash changed'
+        return None
+    if k == 'case':
+        return o_c01(meta, ans, ctx)
+    return None
+
+
 def o_c18(meta, ans, ctx):
     k = meta.get('kind')
     if k == 'case':
@@ -463,6 +526,8 @@ SPECS = {
     'C10': CaseSpec(o_c10, 'every single-bit flip of the 29 fixed header bytes (all 232 for a quarter of the types in the quick tier, a sample of 48 for the others), the reversed cookie, minor/major/usize boundary values; both modes.'),
     'C11': CaseSpec(o_c11, 'every cut point k in [0,len) of the streams of generated values (streams up to 400 bytes in the quick tier); both modes.'),
     'C12': CaseSpec(o_c12, 'every base residue 0..127 (all for half of the types with aligned blocks in the quick tier, 16 residues for the rest) x generated values; block list taken from the real schema.'),
+    'C03': CaseSpec(o_c03, 'offsets of every borrowed part of real ε-copy results (pointer minus buffer start, printed by Show on the ε types) against the offsets of the writer blocks in the model; allocator calls and bytes during deserialize_eps for each value and for the same value with every borrowed payload repeated x4 and x16 (x2, x8, x64 thorough).'),
+    'C06': CaseSpec(o_c06, 'golden corpus (147 files written by the build at claim time for the fixed corpus universe): re-serialization must reproduce the stored bytes, both deserializers must return the stored value, hash words must be the stored ones; plus bytes / hash feeds / digests of every generated type and value against the independent Lean encoder and XXH3 port.'),
     'C18': CaseSpec(o_c18, 'serialize_with_schema of every generated value: bytes versus the plain writer, rows versus the model forest, pre-order / tiling / in-stream / zero padding / alignment invariants on the real rows, to_csv and debug under catch_unwind.'),
     'C13': CaseSpec(o_c13, 'failure at every position k in [0,len] (all k for a fifth of the types in the quick tier, boundary and sampled k for the rest) with random per-call caps and Interrupted patterns, splitting/retrying writers, flush failure, BufWriter over /dev/full; slice references and structures holding them with the allocator protecting the borrowed buffer.'),
     'C14': CaseSpec(o_c14, '10 fragmentation patterns (1-byte, prime-sized, mixed, pseudo-random, with Interrupted, through BufReader) and failure (error or end of file) at positions k in [0,len) for generated values.'),
